@@ -340,7 +340,7 @@ spiftool_regexp_match_r(register const spif_charptr_t str, register const spif_c
 }
 #endif
 
-#define IS_DELIM(c)  ((delim) ? (strchr((char *)delim, (c))) : (isspace(c)))
+#define IS_DELIM(c)  ((delim) ? ((c) && strchr((char *)delim, (c))) : (isspace(c)))
 #define IS_QUOTE(c)  (quote && quote == (c))
 
 spif_charptr_t *
